@@ -23,6 +23,19 @@ MUTS={
  'M15-no-code-in-msg': ("        for funcname, strings in extract_from_code(event[1],\n                                                   gettext_functions):\n            yield event[2][1], funcname, strings, []", "        for funcname, strings in ():\n            yield event[2][1], funcname, strings, []"),
  'M16-choose-last-child': ("            stream = chain(stream, [None])", "            stream = chain(stream, [])"),
  'M17-excluded-attr-code': ("                                                   search_text=search_text\n                                                               and not skip):", "                                                   search_text=search_text\n                                                               and not skip) if not skip else ():"),
+ # --- second wave (work package i18n, 2nd round)
+ 'N1-format-no-strip': ("        return ''.join(self.string).strip()\n", "        return ''.join(self.string)\n"),
+ 'N2-escape-open-only': ("                data = data.replace('[', r'\\[').replace(']', r'\\]')\n", "                data = data.replace('[', r'\\[')\n"),
+ 'N3-any-i18n-directive-stops-text': ("                is_i18n_directive = any([\n                    isinstance(d, ExtractableI18NDirective)\n", "                is_i18n_directive = any([\n                    isinstance(d, I18NDirective)\n"),
+ 'N4-msg-extract-strip-flag': ("        if not strip:\n            if previous[0] is EXPR:\n                for message in translator._extract_code(previous,\n                                                        gettext_functions):\n                    yield message\n            msgbuf.append(*previous)\n\n        yield contextify(\n            self.lineno, None,", "        if strip:\n            if previous[0] is EXPR:\n                for message in translator._extract_code(previous,\n                                                        gettext_functions):\n                    yield message\n            msgbuf.append(*previous)\n\n        yield contextify(\n            self.lineno, None,"),
+ 'N5-extract-ignores-ignore_tags': ("                    if tag in self.ignore_tags or \\\n                            isinstance(attrs.get(xml_lang), six.string_types):\n                        skip += 1\n\n", "                    if isinstance(attrs.get(xml_lang), six.string_types):\n                        skip += 1\n\n"),
+ 'N6-extract-attrs-no-strip': ("                    text = value.strip()\n                    if text:\n                        yield event[2][1], None, text, []", "                    text = value\n                    if text.strip():\n                        yield event[2][1], None, text, []"),
+ 'N7-choose-numeral-ignored': ("                        translation = ngettext(singular_msgbuf.format(),\n                                               plural_msgbuf.format(),\n                                               numeral)", "                        translation = ngettext(singular_msgbuf.format(),\n                                               plural_msgbuf.format(),\n                                               1)"),
+ 'N8-comment-not-popped': ("                                    context_stack=context_stack):\n                                yield message\n                        directives.pop(idx)\n                    elif isinstance(directive, ContextDirective):", "                                    context_stack=context_stack):\n                                yield message\n                    elif isinstance(directive, ContextDirective):"),
+ 'N9-choose-context-swapped': ("        yield contextify(self.lineno, 'ngettext', \\\n            (singular_msgbuf.format(), plural_msgbuf.format()), \\", "        yield contextify(self.lineno, 'ngettext', \\\n            (plural_msgbuf.format(), singular_msgbuf.format()), \\"),
+ 'N10-code-no-nested-calls': ("        if node._fields:\n            children = []", "        elif node._fields:\n            children = []"),
+ 'N11-starred-in-place': ("        return _new(_ast.Starred, self.visit(node.value), node.ctx)\n", "        node.value = self.visit(node.value)\n        return node\n"),
+ 'R3-harmless-swap-escapes': ("                data = data.replace('[', r'\\[').replace(']', r'\\]')\n", "                data = data.replace(']', r'\\]').replace('[', r'\\[')\n"),
  'T1-table-drop-style': ("        QName('style'), QName('http://www.w3.org/1999/xhtml}style')\n", "        QName('http://www.w3.org/1999/xhtml}style')\n"),
  'T2-table-drop-title': ("        'abbr', 'alt', 'label', 'prompt', 'standby', 'summary', 'title',\n", "        'abbr', 'alt', 'label', 'prompt', 'standby', 'summary',\n"),
  'T3-table-contexted': ("    None: 'pgettext',\n", "    None: 'pgettext_',\n"),
@@ -33,6 +46,7 @@ MUTS={
 which=sys.argv[1:] or list(MUTS)
 for name in which:
     a,b=MUTS[name]
+    F=os.path.join(REPO,'genshi/template/eval.py' if name.startswith('N11') else 'genshi/filters/i18n.py')
     src=open(F).read()
     if src.count(a)!=1:
         print(name,'PATTERN COUNT',src.count(a)); continue
